@@ -1,10 +1,79 @@
-import Driver.Util
+import Driver.Stor
 
-/-! Placeholder: the line-protocol driver of domain C25 is not written yet. -/
+/-! Driver for domain C25 (disk write failures): the fault-aware writer model of
+    `Hv/Storage/Fault.lean` is fed the results the real syscalls got (`res` lines) and must
+    predict the same operations; at the end the file is loaded and compared with the Spec. -/
 namespace Driver.C25
+open Hv.Storage Driver.Stor
 
-def run (_args : List String) : IO UInt32 := do
-  IO.eprintln "drv: domain C25 has no driver yet"
-  return 2
+def parseRes (s : String) : Res :=
+  if s == "ok" then .ok else if s == "err" then .err
+  else if s.startsWith "short:" then .short (nat (s.drop 6).toString) else .ok
+
+def showRes : Res → String
+  | .ok => "ok"
+  | .err => "err"
+  | .short n => s!"short:{n}"
+
+/-- which defect a first failed operation exposes -/
+def faultClass (d : Disk) (op : FsOp) (r : Res) : String :=
+  match op with
+  | .write _ off cs =>
+    (match cs.head? with
+     | some (.fh _ _) =>
+       if (d.main.map List.length).getD 0 ≤ 64 then "C25-failed-create-bricks-swamp"
+       else "C25-failed-header-rewrite-overwrites-file"
+     | some (.nm _) => "C25-failed-create-bricks-swamp"
+     | some (.bh _ _) => if r == .err then "C25-failed-write-drops-entries" else "C25-partial-block-strands-later-writes"
+     | _ => if off == 0 then "C25-failed-header-rewrite-overwrites-file" else "C25-partial-block-strands-later-writes")
+  | .sync _ => "C25-fsync-error"
+  | _ => "C25-metadata-error"
+
+def pushR (s : DS) (ops : List (FsOp × Res)) : DS :=
+  ops.foldl (fun (s : DS) (o : FsOp × Res) =>
+    let ff := match s.firstFault with
+      | some f => some f
+      | none => if o.2.isOk then none else some (faultClass s.mdisk o.1 o.2)
+    { s with mops := s.mops ++ [o.1], mres := s.mres ++ [showRes o.2], mdisk := s.mdisk.applyRes o.1 o.2, firstFault := ff }) s
+
+def flagLoad (s : DS) (st : Index) : String :=
+  if sameIndex st s.spec then "" else "\t#F:" ++ (s.firstFault.getD "C25-unexplained-loss")
+
+def hooks : Hooks where
+  expectAt := fun s _ _ => s.spec
+  flagImg := fun _ _ _ _ _ => ""
+  flagLoad := flagLoad
+
+def step (s0 : DS) (line : String) : DS × String :=
+  let s := if line.startsWith "act " then s0.checkpoint else s0
+  match (line.splitOn " ").filter (· ≠ "") with
+  | ["res", rs] => ({ s with rs := (rs.splitOn ",").map parseRes, phantom := [] }, "ok")
+  | ["phantom", h] => ({ s with phantom := hexBytes h }, "ok")
+  | ["act", "w", items] =>
+    let its := parseItems items
+    let out := cWriteF s.cfg s.fc s.mk' ⟨s.cs, s.mdisk, s.rs⟩ its
+    let s1 := pushR s out.ops
+    ({ s1 with cs := out.st.cs, rs := [], spec := Index.replay s.spec (its.map (·.1)), wr := s.wr ++ its.map (·.1) }, "ok")
+  | ["act", "sync", _] =>
+    let out := cSyncF s.cfg s.fc s.mk' ⟨s.cs, s.mdisk, s.rs⟩
+    let s1 := pushR s out.ops
+    ({ s1 with cs := out.st.cs, rs := [] }, if out.failed then "ok err" else "ok ok")
+  | ["act", "close", _] =>
+    let out := cCloseF s.cfg s.fc s.mk' ⟨s.cs, s.mdisk, s.rs⟩
+    let s1 := pushR s out.ops
+    ({ s1 with cs := out.st.cs, rs := [] }, if out.failed then "ok err" else "ok ok")
+  | _ => Driver.Stor.step hooks s0 line
+
+def cfgOfArgs (kv : List (String × String)) : Cfg :=
+  { r := ⟨boolArg kv "shortHeaderIsEOF", boolArg kv "tornDataIsEOF", false⟩,
+    syncFsyncs := boolArg kv "syncFsyncs", closeFsyncs := boolArg kv "closeFsyncs",
+    truncatesTornTail := boolArg kv "truncatesTornTail",
+    loadCleansTemp := true, rmTempLocked := true, rmTempFromIndex := true, rmTempCompactor := true }
+
+def run (args : List String) : IO UInt32 := do
+  let kv := parseArgs args
+  let fc : FCfg := ⟨boolArg kv "clearsBufferBeforeWrite", boolArg kv "rollsBackFailedBlock", boolArg kv "restoresOffsetAfterHeader"⟩
+  lineLoop step { cfg := cfgOfArgs kv, fc := fc, probe := false }
+  return 0
 
 end Driver.C25
